@@ -179,6 +179,20 @@ def main(argv=None):
         if v < fl:
             inconclusive.append(f'reach floor not met: {name} observed {v} < {fl}')
 
+    # skip ceilings: a case the harness could not decide (unsupported, not interpretable, rejected ...) is not evidence; when
+    # such cases exceed what the unchanged tree produces (with head-room) the run did not reach what it claims to have explored
+    ceilings = mod.ceilings(a.tier) if hasattr(mod, 'ceilings') else {}
+    ceiling_report = {}
+    for name, frac in ceilings.items():
+        if name.endswith('*'):
+            v = sum(n for k, n in m['counters'].items() if k.startswith(name[:-1]))
+        else:
+            v = m['counters'].get(name, 0)
+        limit = int(frac * max(m['evaluations'], 1)) + 5
+        ceiling_report[name] = {'observed': v, 'ceiling': limit}
+        if v > limit:
+            inconclusive.append(f'skip ceiling exceeded: {name} observed {v} > {limit} of {m["evaluations"]} evaluations')
+
     # evidence ---------------------------------------------------------------------------
     cov = {
         'evaluations': m['evaluations'],
@@ -190,6 +204,7 @@ def main(argv=None):
                           for k, v in sorted(m['sets'].items())},
         'maxima': m['maxes'],
         'reach_floors': floor_report,
+        'skip_ceilings': ceiling_report,
         'known_findings_hit': {fid: kk['n'] for fid, kk in sorted(known.items())},
         'unexplained_signatures': [e['sig'] for e in unknown[:20]],
         'workers': len(results),
